@@ -163,7 +163,7 @@ class Ctx:
                 in_ax = True
                 continue
             if in_ax:
-                m = re.match(r"^([A-Za-z_][\w.']*)\s*:", line)
+                m = re.match(r"^([A-Za-z_][\w.']*)\s*(?::|$)", line)
                 if m:
                     axioms.add(m.group(1))
                 elif line.startswith(" ") or not line.strip():
